@@ -146,8 +146,97 @@ func extractHygiene(p *pkgs, f *facts) {
 			slotAtomic = false
 		}
 	}
-	f.lean = append(f.lean, fmt.Sprintf("def hygiene : Hygiene.Params := ⟨%s, %s, %s, %s, %s, %s, %s⟩",
-		leanBool(noResume), leanBool(envUntouched), leanBool(noDeadlines), leanBool(sharesDir), leanBool(doorFirst), leanBool(onlyExec), leanBool(slotAtomic)))
+	// the command runner's address translation is the identity in both directions: the body of each method is one
+	// `return <first parameter>, <second parameter>, nil`
+	transIdentity := true
+	for _, name := range []string{"PluginToHost", "HostToPlugin"} {
+		fn := p.fn("addrTranslator", name)
+		ok := false
+		if fn != nil && len(fn.Body.List) == 1 && fn.Type.Params != nil {
+			var params []string
+			for _, fl := range fn.Type.Params.List {
+				for _, n := range fl.Names {
+					params = append(params, n.Name)
+				}
+			}
+			if rs, isRet := fn.Body.List[0].(*ast.ReturnStmt); isRet && len(params) == 2 && len(rs.Results) == 3 &&
+				exprString(rs.Results[0]) == params[0] && exprString(rs.Results[1]) == params[1] && exprString(rs.Results[2]) == "nil" {
+				ok = true
+			}
+		}
+		if fn == nil {
+			f.miss = append(f.miss, "addrTranslator."+name)
+		}
+		transIdentity = transIdentity && ok
+	}
+	// dispenseServer.Dispense takes the id it hands out from the BROKER's allocator (`<v> := d.broker.NextId()`, answered
+	// as `*response = <v>` and accepted as `d.broker.Accept(<v>)`): dispensed ids and the plugin's own reservations never collide
+	dispIDs := false
+	if fn := p.fn("dispenseServer", "Dispense"); fn != nil {
+		idVar := ""
+		ast.Inspect(fn.Body, func(n ast.Node) bool {
+			if as, ok := n.(*ast.AssignStmt); ok && len(as.Lhs) == 1 && len(as.Rhs) == 1 && exprString(as.Rhs[0]) == "d.broker.NextId()" && idVar == "" {
+				idVar = exprString(as.Lhs[0])
+			}
+			return true
+		})
+		answered, accepted := false, false
+		ast.Inspect(fn.Body, func(n ast.Node) bool {
+			switch v := n.(type) {
+			case *ast.AssignStmt:
+				if len(v.Lhs) == 1 && len(v.Rhs) == 1 && exprString(v.Lhs[0]) == "*response" {
+					answered = idVar != "" && exprString(v.Rhs[0]) == idVar
+				}
+			case *ast.CallExpr:
+				if fnName := exprString(v.Fun); (fnName == "d.broker.Accept" || fnName == "d.broker.AcceptAndServe") && len(v.Args) >= 1 {
+					accepted = idVar != "" && exprString(v.Args[0]) == idVar
+				}
+			}
+			return true
+		})
+		dispIDs = answered && accepted && writesTo(fn.Body, idVar) <= 1
+	} else {
+		f.miss = append(f.miss, "dispenseServer.Dispense")
+	}
+	// GRPCBroker.AcceptAndServe serves with the TLS configuration the broker was given, itself: `credentials.NewTLS(b.tls)`,
+	// and grpc_broker.go builds no tls.Config of its own (no composite literal, no Clone)
+	givenTLS := false
+	if fn := p.fn("GRPCBroker", "AcceptAndServe"); fn != nil {
+		givenTLS = strings.Contains(nodeCalls(fn.Body), "credentials.NewTLS(b.tls)")
+		for key, file := range p.files {
+			if key != "grpc_broker.go" {
+				continue
+			}
+			ast.Inspect(file, func(n ast.Node) bool {
+				switch v := n.(type) {
+				case *ast.CompositeLit:
+					if exprString(v.Type) == "tls.Config" {
+						givenTLS = false
+					}
+				case *ast.CallExpr:
+					if strings.HasSuffix(exprString(v.Fun), ".tls.Clone") {
+						givenTLS = false
+					}
+				}
+				return true
+			})
+		}
+	} else {
+		f.miss = append(f.miss, "GRPCBroker.AcceptAndServe")
+	}
+	// serverListener_unix takes the socket's name from os.CreateTemp in the configured directory (a name no other process
+	// sharing that directory can have chosen), and from nowhere else
+	randNames := false
+	if fn := p.fn("", "serverListener_unix"); fn != nil {
+		calls := nodeCalls(fn.Body)
+		randNames = strings.Count(calls, "os.CreateTemp(unixSocketCfg.socketDir,") == 1 && !strings.Contains(calls, "fmt.Sprintf(") && !strings.Contains(calls, "filepath.Join(")
+	} else {
+		f.miss = append(f.miss, "serverListener_unix")
+	}
+	f.lean = append(f.lean, fmt.Sprintf("def hygiene : Hygiene.Params := ⟨%s, %s, %s, %s, %s, %s, %s, %s, %s, %s, %s⟩",
+		leanBool(noResume), leanBool(envUntouched), leanBool(noDeadlines), leanBool(sharesDir), leanBool(doorFirst), leanBool(onlyExec), leanBool(slotAtomic),
+		leanBool(transIdentity), leanBool(dispIDs), leanBool(givenTLS), leanBool(randNames)))
 	f.set("hygiene", map[string]interface{}{"noSessionResumption": noResume, "runnerLeavesEnv": envUntouched, "noWriteDeadlines": noDeadlines,
-		"brokerSharesSocketDir": sharesDir, "doorBeforeAck": doorFirst, "startErrorOnlyFromExec": onlyExec, "slotLookupAtomic": slotAtomic})
+		"brokerSharesSocketDir": sharesDir, "doorBeforeAck": doorFirst, "startErrorOnlyFromExec": onlyExec, "slotLookupAtomic": slotAtomic, "translatorIdentity": transIdentity,
+		"dispenseUsesBrokerIds": dispIDs, "brokerServesWithGivenTLS": givenTLS, "socketNamesFromCreateTemp": randNames})
 }
